@@ -483,8 +483,19 @@ class Tr:
                 if any(c not in 'sr%' for c in convs):
                     self.fail(st, 'message format with a conversion other than %s / %r')
                 n = len([c for c in convs if c != '%'])
-                binds, t, ty = self.stmt_expr(a.right, env)
-                if isinstance(ty, tuple) and ty[0] == 'pair':
+                if isinstance(a.right, ast.Tuple):      # an explicit argument tuple: one argument per element
+                    binds, ty = [], None
+                    for el in a.right.elts:
+                        b, _, tel = self.stmt_expr(el, env)
+                        if tel in (NONE, TRUTH):
+                            self.fail(st, 'message argument of undetermined type')
+                        binds += b
+                    nargs = len(a.right.elts)
+                else:
+                    binds, t, ty = self.stmt_expr(a.right, env)
+                if isinstance(a.right, ast.Tuple):
+                    pass
+                elif isinstance(ty, tuple) and ty[0] == 'pair':
                     nargs = 2
                 elif ty in (NAT, STR, BOOL) or (isinstance(ty, tuple) and ty[0] == 'option' and ty[1] in (NAT, STR, BOOL)):
                     nargs = 1
